@@ -16,6 +16,11 @@ CMP = {"Lt": lambda a, b: a < b, "Le": lambda a, b: a <= b, "Gt": lambda a, b: a
        "Eq": lambda a, b: a == b, "Ne": lambda a, b: a != b}
 
 
+class _Return(Exception):
+    def __init__(self, value):
+        self.value = value
+
+
 class Evaluator:
     def __init__(self, F, allow_calls=()):
         self.F = F
@@ -161,15 +166,18 @@ class Evaluator:
         if k == "Block":
             env2 = dict(env)
             for s in n.get("stmts", []):
-                if s.get("k") == "Let" and s["pat"].get("k") == "Bind" and s.get("init"):
+                if s.get("k") == "Let" and s["pat"].get("k") == "Bind" and s.get("init") and not s.get("els"):
                     env2[s["pat"]["name"]] = self.eval(s["init"], env2)
+                elif s.get("k") == "Expr" and strip(s["e"]).get("k") in ("If", "Ret", "Match"):
+                    # a guard statement: `if c { return v; }` — evaluated for its early return only
+                    self.eval(s["e"], env2)
                 else:
                     raise Unsupported(s, "statement in a comparison predicate")
             if n.get("tail"):
                 return self.eval(n["tail"], env2)
             return ()
         if k == "Ret":
-            raise Unsupported(n, "early return in a comparison predicate")
+            raise _Return(self.eval(n["e"], env) if n.get("e") else ())
         if k == "Cast":
             raise Unsupported(n, "cast in a comparison predicate")
         raise Unsupported(n, "construct outside the ordering fragment: %s" % k)
@@ -181,7 +189,10 @@ class Evaluator:
         ps = b["tir"]["params"]
         if len(ps) != len(args) or any(p.get("k") != "Bind" for p in ps):
             raise Unsupported(b["tir"]["value"], "parameter patterns outside the fragment")
-        return self.eval(b["tir"]["value"], {p["name"]: a for p, a in zip(ps, args)})
+        try:
+            return self.eval(b["tir"]["value"], {p["name"]: a for p, a in zip(ps, args)})
+        except _Return as r:
+            return r.value
 
 
 def representatives(consts, nvars, lo=0, hi=255):
